@@ -62,7 +62,7 @@ def run_batch(wa, kind, nkeys, batch, idx):
     return rc, so, se, to
 
 
-def check_kind(chk, wa, kind, nkeys, paths, label, bsize=1500):
+def check_kind(chk, wa, kind, nkeys, paths, label, bsize=1500, prefix="C13"):
     if len(chk.violations) > 60:
         chk.notes.append("skipped %s/%s: more than 60 violations already reported" % (label, kind))
         return 1
@@ -79,7 +79,7 @@ def check_kind(chk, wa, kind, nkeys, paths, label, bsize=1500):
             chk.add("traces_validated_against_impl", 1)
             if j >= len(obs) or obs[j] is None:
                 what = "does not return (timeout)" if to else "aborts: " + (se.strip().splitlines() or so.strip().splitlines()[-1:] or ["?"])[-1][:200]
-                chk.report("C13:%s:%s" % ("hang" if to else "abort", kind),
+                chk.report("%s:%s:%s" % (prefix, "hang" if to else "abort", kind),
                            "map operation %s for %s keys after history %s" % (what, kind, hist),
                            {"kind": kind, "nkeys": nkeys, "history": hist, "origin": label, "stderr": se[-500:]})
                 bad += 1
@@ -96,7 +96,7 @@ def check_kind(chk, wa, kind, nkeys, paths, label, bsize=1500):
                 fail = ("range", exp_rng, rng)
             if fail:
                 bad += 1
-                chk.report("C13:%s:%s" % (fail[0], kind),
+                chk.report("%s:%s:%s" % (prefix, fail[0], kind),
                            "%s disagrees with the finite map for %s keys after %s: expected %s, observed %s" % (
                                fail[0], kind, hist, fail[1], fail[2]),
                            {"kind": kind, "nkeys": nkeys, "history": hist, "expected": exp, "observed": obs[j], "origin": label})
